@@ -23,7 +23,7 @@ ASSUMPTIONS = [
     "scipy asymmetric errors only on the two-parameter problem (1.3 s each)",
 ]
 TOL_VAL = {"iminuit": 0.03, "scipy": 0.05}
-PROBLEMS = [("xy", "linoff"), ("xy", "quadoff"), ("xy", "basis3"), ("indexed", "idx3"), ("xy", "lin@1e-5")]  # last: y in units x1e-5
+PROBLEMS = [("xy", "linoff"), ("xy", "quadoff"), ("xy", "basis3"), ("indexed", "idx3"), ("xy", "lin@1e-5"), ("xy", "linoff#nodet"), ("indexed", "idx3#nodet")]  # @: y in units x1e-5; #nodet: cost OBJECT without determinant term
 MIX_KINDS = ["y-abs", "y-abs-rho", "y-cov", "y-rel"]
 CONS = [(), ("simple",), ("matrix-cov",), ("simple-rel", "matrix-cor")]
 
@@ -42,6 +42,100 @@ def fixed_subsets(par_names):
     return out
 
 
+# ---- multi-fits with shared linear parameters: the stacked system
+MULTI_CASES = [(["xy_ab", "xy_ac"], ()), (["xy_ab", "xy_ac"], ("simple",)), (["xy_ab", "idx_ad", "xy_bc"], ("matrix-cov",)), (["xy_ab", "xy_ac"], ("shared",)), (["xy_ab", "idx_ad"], ("simple", "shared"))]
+
+
+def check_multi(names, extras, backend, fix):
+    from kmc.multiworld import MultiWorld
+
+    mw = MultiWorld(names, minimizer=backend)
+    with warnings.catch_warnings():
+        warnings.simplefilter("ignore")
+        for e in extras:
+            if e == "shared":
+                mw.apply(("shared", "y-abs-rho", "sh0", [0, 1]))
+            else:
+                mw.apply(("m", ("con", e)))
+        if fix:
+            mw.apply(("m", ("fix", mw.par_names[-1], round(mw.defaults[mw.par_names[-1]] * 1.1, 6))))
+        mw.apply(("m", ("fit",)))
+    P = mw.par_names
+    rows_W, rows_b, rows_d = [], [], []
+    for w in mw.members:
+        x, d = w.ref_data()
+        idx = [P.index(p) for p in w.par_names]
+
+        def f(pfull, w=w, x=x, idx=idx):
+            args = [pfull[i] for i in idx]
+            return w.fn(x, *args) if w.ftype == "xy" else w.fn(*args)
+
+        W, b = gls.design(f, len(P))
+        rows_W.append(W)
+        rows_b.append(b)
+        rows_d.append(d)
+    W = np.vstack(rows_W)
+    b = np.concatenate(rows_b)
+    d = np.concatenate(rows_d)
+    if mw.shared:
+        V = mw.ref_joint()["V"]
+    else:
+        blocks = [w.ref_covs()["total"] for w in mw.members]
+        n = sum(len(x) for x in blocks)
+        V = np.zeros((n, n))
+        o = 0
+        for B in blocks:
+            V[o : o + len(B), o : o + len(B)] = B
+            o += len(B)
+    g = gls.solve(W, b, d, V, P, cons=[mw.con_specs[c] for c in mw.cons], fixed=mw.fixed)
+    out = []
+    f = mw.multi
+    sig = np.sqrt(np.diag(g["cov"]))
+    vals = np.asarray(f.parameter_values, dtype=float)
+    for i, p in enumerate(P):
+        if p in mw.fixed:
+            if vals[i] != mw.fixed[p]:
+                out.append(("parameter_values:" + p, mw.fixed[p], float(vals[i]), "fixed-moved"))
+        elif abs(vals[i] - g["values"][i]) > TOL_VAL[backend] * sig[i]:
+            out.append(("parameter_values:" + p, float(g["values"][i]), float(vals[i]), "wrong-value"))
+    C = np.asarray(f.parameter_cov_mat, dtype=float)
+    for i, p in enumerate(P):
+        for j, q in enumerate(P):
+            if p in mw.fixed or q in mw.fixed:
+                continue
+            if abs(C[i, j] - g["cov"][i, j]) > 1e-2 * sig[i] * sig[j]:
+                out.append(("parameter_cov_mat[%s,%s]" % (p, q), float(g["cov"][i, j]), float(C[i, j]), "wrong-value"))
+    gof = f.goodness_of_fit
+    if gof is None or abs(gof - g["chi2"]) > 1e-3 + 1e-6 * abs(g["chi2"]):
+        out.append(("goodness_of_fit", g["chi2"], gof, "wrong-value"))
+    return out
+
+
+def run_multi_job(spec):
+    _, ci, backend, v, tier = spec
+    names, extras = MULTI_CASES[ci]
+    res = JobResult()
+    for fix in (False, True):
+        hist = [dict(multi=ci, backend=backend, fix=fix)]
+        try:
+            bad = check_multi(names, extras, backend, fix)
+        except Exception as e:  # noqa: BLE001
+            bad = [("op", "no exception", "%s: %s" % (type(e).__name__, str(e)[:150]), "exception:" + type(e).__name__)]
+        res.executions += 1
+        res.transitions += 6
+        res.evaluations += 5
+        key = ("multi", ci, backend, fix)
+        res.state(key)
+        res.nontriv(key)
+        res.observe((key, len(bad)))
+        res.outcomes[("multi", backend, "+".join(extras) or "plain", "ok" if not bad else "MISMATCH")] += 1
+        res.facts["problem:multi"] += 1
+        for o, e, a, m in bad:
+            res.violation("multi/%s/%s|%s|%s" % ("+".join(names), backend, "+".join(extras) or "plain", "fix" if fix else "free"), hist, o, e, a, m)
+    res.sample(dict(kind="multi", members=names, extras=list(extras), backend=backend))
+    return res.as_dict()
+
+
 def jobs(tier, seed):
     v = seed % 3
     specs = []
@@ -52,11 +146,14 @@ def jobs(tier, seed):
                     continue  # the scipy backend is not scale invariant (open finding KF-C15-02); the small-unit problem is run with iminuit
                 for mi, mix in enumerate(mixes()):
                     specs.append((prob, backend, mix, vv, tier))
+        for ci in range(len(MULTI_CASES)):
+            for backend in ("iminuit", "scipy"):
+                specs.append(("multi", ci, backend, vv, tier))
     return specs
 
 
 def bound(tier, seed):
-    return "5 linear problems (one with y in units x1e-5) x 10 source mixes x all single fixed parameters (+1 pair) x 4 constraint sets x 2 backends x 2 starting points; valuation(s) %s" % ((seed % 3) if tier == "quick" else "0,1,2")
+    return "7 linear problems (one with y in units x1e-5, two with a cost-function object without determinant term) + 5 multi-fits with shared linear parameters (stacked system; multi-fit constraints, shared source, fixed parameter) x 10 source mixes x all single fixed parameters (+1 pair) x 4 constraint sets x 2 backends x 2 starting points; valuation(s) %s" % ((seed % 3) if tier == "quick" else "0,1,2")
 
 
 def build_ops(mix, cons, start, fixed):
@@ -115,8 +212,9 @@ def check_fit(w, backend, with_asym):
     if gof is None or abs(gof - g["chi2"]) > 1e-3 + 1e-6 * abs(g["chi2"]):
         out.append(("goodness_of_fit", g["chi2"], gof, "wrong-value"))
     cost = f.cost_function_value
-    if abs(cost - (g["chi2"] + g["logdet"])) > 1e-3 + 1e-6 * abs(g["chi2"]):
-        out.append(("cost_function_value", g["chi2"] + g["logdet"], float(cost), "wrong-value"))
+    ecost = g["chi2"] + (0.0 if w.cost_id == "chi2:nodet" else g["logdet"])
+    if abs(cost - ecost) > 1e-3 + 1e-6 * abs(g["chi2"]):
+        out.append(("cost_function_value", ecost, float(cost), "wrong-value"))
     if f.ndf != w.ref_ndf():
         out.append(("ndf", w.ref_ndf(), f.ndf, "wrong-value"))
     if with_asym:
@@ -138,6 +236,9 @@ def check_fit(w, backend, with_asym):
 
 
 def _world(ftype, model, v, backend):
+    if "#" in model:
+        m, flag = model.split("#")
+        return FitWorld(ftype, "chi2:nodet", model=m, v=v, n=8, minimizer=backend)
     if "@" in model:
         m, sc = model.split("@")
         return FitWorld(ftype, "chi2", model=m, v=v, n=8, minimizer=backend, yscale=float(sc))
@@ -155,6 +256,8 @@ def execute(cfg, ops, with_asym):
 
 
 def run_job(spec):
+    if spec[0] == "multi":
+        return run_multi_job(spec)
     prob, backend, mix, v, tier = spec
     res = JobResult()
     cfg = (prob, backend, v)
@@ -197,6 +300,13 @@ def _sig(prob, backend, ops):
 
 def replay(history):
     head = history[0]
+    if "multi" in head:
+        names, extras = MULTI_CASES[head["multi"]]
+        try:
+            bad = check_multi(names, extras, head["backend"], head["fix"])
+        except Exception as e:  # noqa: BLE001
+            bad = [("op", "no exception", type(e).__name__, "exception:" + type(e).__name__)]
+        return [dict(observable=o, expected=e, actual=a, mode=m) for o, e, a, m in bad]
     cfg = (tuple(head["cfg"][0]), head["cfg"][1], head["cfg"][2])
     try:
         w, bad = execute(cfg, history[1:], head.get("asym", False))
